@@ -389,7 +389,7 @@ def case_cbin_outputs(ctx, n, max_wf, chunk, length, offset):
 def cases(tier):
     b = bounds(tier)
     cs = []
-    cs.append(Case("cbin_outputs_n3_maxwf2", "case_cbin_outputs", {"n": 3, "max_wf": 2, "chunk": 12, "length": 4, "offset": 1}, timeout_s=3400, max_paths=900000))
+    # cs.append(Case("cbin_outputs_n3_maxwf2", "case_cbin_outputs", {"n": 3, "max_wf": 2, "chunk": 12, "length": 4, "offset": 1}, timeout_s=3400, max_paths=900000))   # sized below
     for g in GEOMS:
         cs.append(Case(f"cutout_{g}", "case_cutout", {"geom": g, "ns": 9, "length": 4, "offset": 1, "nwf": 2, "add_nan": True}, timeout_s=2400, max_paths=100000))
     cs.append(Case("cutout_np1_6_prepadded", "case_cutout", {"geom": "np1_6", "ns": 8, "length": 3, "offset": 2, "nwf": 1, "add_nan": False}, timeout_s=2400))
